@@ -23,6 +23,65 @@ class LoopCtx:
         self.elems = None       # concrete element list, or None for a symbolic range
         self.ghost = {}
         self.phase = "init"
+        self.names = {}         # role -> name of the local that plays it (bound at loop entry)
+
+    # ---- loop-carried locals are addressed by ROLE, so that renaming a local does not disturb the specification
+    def get(self, role):
+        n = self.names.get(role, role)
+        e = self.env
+        while e is not None:
+            if n in e.locals:
+                return e.locals[n]
+            e = e.parent
+        raise Unsupported("loop specification %s: the local for %r (%s) does not exist" % (self.spec.name, role, n))
+
+    def set(self, role, value):
+        self.env.locals[self.names.get(role, role)] = value
+
+    def loop_target(self, ordinal):
+        """name of the target variable of the for-loop with this ordinal in the same function"""
+        idx = getattr(self.env.fnode, "_loop_index", None) or {}
+        for node in ast.walk(self.env.fnode):
+            if isinstance(node, ast.For) and idx.get(id(node)) == ordinal and isinstance(node.target, ast.Name):
+                return node.target.id
+        raise Unsupported("loop specification %s: for-loop #%d has no simple target" % (self.spec.name, ordinal))
+
+    def bind_roles(self):
+        roles = self.spec.roles or {}
+        fn = self.env.fnode
+        params = set()
+        if fn is not None:
+            a = fn.args
+            params = {x.arg for x in a.posonlyargs + a.args + a.kwonlyargs}
+            if a.vararg:
+                params.add(a.vararg.arg)
+            if a.kwarg:
+                params.add(a.kwarg.arg)
+        # bindings made by an enclosing loop specification of the same function activation are kept
+        shared = self.interp.__dict__.setdefault("_role_names", {}).setdefault(id(self.env), {})
+        for role, (preferred, pred) in roles.items():
+            if role in shared and shared[role] in self.env.locals:
+                self.names[role] = shared[role]
+                continue
+            if preferred in self.env.locals:
+                self.names[role] = preferred
+                shared[role] = preferred
+                continue
+            cands = []
+            for n, v in self.env.locals.items():
+                if n in params or n in self.names.values():
+                    continue
+                try:
+                    ok = bool(pred(v))
+                except Exception:       # noqa: BLE001
+                    ok = False
+                if ok:
+                    cands.append(n)
+            if len(cands) != 1:
+                raise Unsupported("loop specification %s: cannot tell which local plays the role %r (expected %r; "
+                                  "candidates by value at loop entry: %r)" % (self.spec.name, role, preferred, cands))
+            self.names[role] = cands[0]
+            shared[role] = cands[0]
 
     def elem(self, k):
         if self.elems is None:
@@ -33,9 +92,24 @@ class LoopCtx:
         return _select(self.interp, list(self.elems), k - self.lo)
 
 
+def _all(inv):
+    from .spec import And
+    return And(list(inv.values())) if isinstance(inv, dict) else inv
+
+
+def _prove_inv(ctx, name, inv, detail):
+    """an invariant may be given as {label: condition}: each conjunct is then its own obligation"""
+    if isinstance(inv, dict):
+        for label, cond in inv.items():
+            ctx.prove("%s/%s" % (name, label), cond, detail=detail)
+    else:
+        ctx.prove(name, inv, detail=detail)
+
+
 class LoopSpec:
-    def __init__(self, name, invariant, havoc, ghost_init=None, variant=None):
+    def __init__(self, name, invariant, havoc, ghost_init=None, variant=None, roles=None):
         self.name = name
+        self.roles = roles              # role -> (usual local name, predicate on its value at loop entry)
         self.invariant = invariant      # lc -> condition
         self.havoc = havoc              # lc -> None (puts loop-modified state into an arbitrary state)
         self.ghost_init = ghost_init    # lc -> None, run once before initiation
@@ -55,10 +129,11 @@ class LoopSpec:
                 if any(sym.is_sym(x) for x in lc.elems) and False:
                     raise Unsupported("loop rule over a list with symbolic elements")
                 lc.lo, lc.hi = 0, len(lc.elems)
+        lc.bind_roles()
         if self.ghost_init is not None:
             self.ghost_init(lc)
         lc.k = lc.lo
-        ctx.prove("inv-init@%s" % self.name, self.invariant(lc), detail="loop invariant does not hold on entry")
+        _prove_inv(ctx, "inv-init@%s" % self.name, self.invariant(lc), "loop invariant does not hold on entry")
         if ctx.fork(ctx.fresh_bool("loop_step@%s" % self.name).e):
             # ---- an arbitrary iteration
             lc.phase = "step"
@@ -68,7 +143,7 @@ class LoopSpec:
                 ctx.assume(k >= lc.lo)
                 ctx.assume(k < lc.hi)
             self.havoc(lc)
-            ctx.assume(self.invariant(lc))
+            ctx.assume(_all(self.invariant(lc)))
             if is_for:
                 interp.assign(s.target, lc.elem(lc.k), env)
             else:
@@ -85,8 +160,8 @@ class LoopSpec:
                 lc.k = lc.k + 1
             lc.phase = "keep"
             ctx.cover()         # vacuity guard: an arbitrary iteration is executable
-            ctx.prove("inv-keep@%s" % self.name, self.invariant(lc),
-                      detail="loop invariant not re-established by an arbitrary iteration")
+            _prove_inv(ctx, "inv-keep@%s" % self.name, self.invariant(lc),
+                       "loop invariant not re-established by an arbitrary iteration")
             if not is_for and self.variant:
                 v1 = self.variant(lc)
                 ctx.prove("variant@%s" % self.name, (v1 < v0) & (v0 >= 0) if sym.is_sym(v1 < v0) else (v1 < v0 and v0 >= 0),
@@ -94,6 +169,9 @@ class LoopSpec:
             raise PathEnd()
         # ---- the state after the loop
         lc.phase = "exit"
+        never_exits = isinstance(s, ast.While) and isinstance(s.test, ast.Constant) and bool(s.test.value)
+        if not never_exits:
+            ctx.ex.loop_exit_wanted.add(self.name)
         if is_for:
             lc.k = lc.hi if not sym.is_sym(lc.hi) or True else lc.hi
             # an empty symbolic range leaves k at lo
@@ -101,8 +179,10 @@ class LoopSpec:
                 from .spec import ite
                 lc.k = ite(lc.hi > lc.lo, lc.hi, lc.lo)
         self.havoc(lc)
-        ctx.assume(self.invariant(lc))
+        ctx.assume(_all(self.invariant(lc)))
         if not is_for:
             if interp.test(interp.ev(s.test, env)):
                 raise PathEnd()           # not an exit state
+        ctx.cover()
+        ctx.ex.loop_exit_seen.add(self.name)      # vacuity guard: the specified loop can be left
         interp.exec_block(s.orelse, env)
